@@ -111,7 +111,7 @@ void harness(void) {
 static int is_final(int s) { return s == KSI_ASYNC_STATE_ERROR || s == KSI_ASYNC_STATE_RESPONSE_RECEIVED || s == KSI_ASYNC_STATE_PUSH_CONFIG_RECEIVED; }
 /* at entry: would the handle be handed back?  final state, or waiting for a response longer than the configured time */
 static int timed_out(const KSI_AsyncHandle *h) {
-	return c0.options[KSI_ASYNC_OPT_RCV_TIMEOUT] == 0 || (double)g_env_now - (double)h->sndTime > (double)c0.options[KSI_ASYNC_OPT_RCV_TIMEOUT];
+	return c0.options[KSI_ASYNC_OPT_RCV_TIMEOUT] == 0 || difftime((time_t)g_env_now, h->sndTime) > c0.options[KSI_ASYNC_OPT_RCV_TIMEOUT];
 }
 static int returnable(const KSI_AsyncHandle *h) { return is_final(h->state) || (h->state == KSI_ASYNC_STATE_WAITING_FOR_RESPONSE && timed_out(h)); }
 static int slot_returnable(size_t i) { return i < ainv_N(&g_c) && cache0[i] != NULL && returnable(&h0[i]); }
